@@ -75,6 +75,7 @@ def body(ck):
                       "Adam internals are not modelled; only the global-norm clipping stage of the optimiser chain is observed"]
     ck.not_proved = ["Adam update rule (optax)"]
     ck.build_coq(); ck.compile_props()
+    ck.kernel_link()   # PPO.ppo_loss regenerated from the source = clipped surrogate / value / entropy kernels (coq/link/C08_link.v)
     quick = ck.tier == "quick"
     rng = ck.rng
     cases, cj = [], []
